@@ -270,6 +270,24 @@ func (m *Machine) Concretize(v IntV, lo, hi int) (int, bool) {
 		return int(c), true
 	}
 	if hi-lo > 12 {
+		// narrow the range with what the path condition says about v (validators usually bound it)
+		ctx := m.ctx()
+		for b := lo; b <= lo+12 && b <= hi; b++ {
+			if sym.Entails(ctx, sym.CLe(v.P, sym.PInt(int64(b)))) {
+				hi = b
+				break
+			}
+		}
+		if hi-lo > 12 {
+			for b := hi; b >= hi-12 && b >= lo; b-- {
+				if sym.Entails(ctx, sym.CGe(v.P, sym.PInt(int64(b)))) {
+					lo = b
+					break
+				}
+			}
+		}
+	}
+	if hi-lo > 12 {
 		// an unbounded symbolic length/index would mean enumerating every value: outside the fragment
 		panic(Unsupported{"symbolic integer " + v.P.String() + " used as a length or index over a wide range"})
 	}
